@@ -1,11 +1,332 @@
-//! (not built yet)
-use serde_json::Value;
-use vcore::Run;
+//! C17 (end-to-end half) — foreign-session traffic is never delivered.
 
-pub fn run(run: &Run) {
-    run.inconclusive("check not built yet");
+use crate::common::*;
+use proptest::prelude::*;
+use refcodec::registry as reg;
+use serde::{Deserialize, Serialize};
+use serde_json::Value;
+use std::collections::BTreeMap;
+use std::sync::{Arc, Mutex};
+use std::time::Duration;
+use vcore::{prop_search, Outcome, Run, Search};
+use wire::*;
+
+const RULE: &str = "end-to-end: the raw peer interleaves live traffic of the session (WT uni / bidi streams with tagged payloads, datagrams) with streams and datagrams naming a different, valid but unused session id (4, 8, 2^k*4 up to 2^62-4; for the client role also ids that would belong to later requests), in generated order, on both roles. Oracle: no foreign stream or datagram is ever returned by accept_uni / accept_bi / receive_datagram; every foreign stream is refused with the WebTransport buffered-stream-rejected code 0x3994bd84 (STOP_SENDING on the peer's send half) once the application asks for streams; all live streams are delivered with their bytes, a live datagram still arrives, and the session stays up. Non-trivial: >= 1 foreign element between two live ones; distinct = distinct case";
+
+#[derive(Clone, Debug, Serialize, Deserialize)]
+pub enum Item {
+    LiveUni(u8),
+    LiveBi(u8),
+    LiveDatagram(u8),
+    ForeignUni(u64),
+    ForeignBi(u64),
+    ForeignDatagram(u64),
 }
 
-pub fn replay(_run: &Run, _doc: &Value) -> bool {
-    false
+#[derive(Clone, Debug, Serialize, Deserialize)]
+pub struct Case {
+    pub flavor: u8,
+    pub wt_is_server: bool,
+    pub items: Vec<Item>,
+}
+
+fn foreign_id() -> impl Strategy<Value = u64> {
+    prop_oneof![
+        3 => proptest::sample::select(vec![4u64, 8, 12, 16, 252, 256, 16380, 16384]),
+        2 => (2u32..60).prop_map(|k| (1u64 << k) * 4),
+        1 => Just((1u64 << 62) - 4),
+        1 => (1u64..(1 << 60)).prop_map(|q| q * 4),
+    ]
+}
+
+pub fn case_strategy() -> impl Strategy<Value = Case> {
+    let item = prop_oneof![
+        2 => any::<u8>().prop_map(Item::LiveUni),
+        2 => any::<u8>().prop_map(Item::LiveBi),
+        1 => any::<u8>().prop_map(Item::LiveDatagram),
+        2 => foreign_id().prop_map(Item::ForeignUni),
+        2 => foreign_id().prop_map(Item::ForeignBi),
+        1 => foreign_id().prop_map(Item::ForeignDatagram),
+    ];
+    (0u8..3, any::<bool>(), proptest::collection::vec(item, 2..12)).prop_map(|(flavor, wt_is_server, items)| Case { flavor, wt_is_server, items })
+}
+
+#[derive(Default)]
+struct Got {
+    uni: Vec<Vec<u8>>,
+    bi: Vec<Vec<u8>>,
+    dgram: Vec<Vec<u8>>,
+    errors: Vec<String>,
+}
+
+async fn exec_async(case: Arc<Case>) -> CaseResult {
+    let (conn, raw_conn, session, _keep): (wtransport::Connection, quinn::Connection, u64, Box<dyn std::any::Any + Send>) = if case.wt_is_server {
+        match raw_client_vs_wt_server(&Tuning::default(), &Tuning::default()).await {
+            Ok(p) => (p.server.clone(), p.raw.conn.clone(), p.raw.session_id, Box::new(p)),
+            Err(e) => return CaseResult::Skip(e),
+        }
+    } else {
+        match wt_client_vs_raw_server(&Tuning::default(), &Tuning::default()).await {
+            Ok(p) => (p.client.clone(), p.raw.conn.clone(), p.raw.session_id, Box::new(p)),
+            Err(e) => return CaseResult::Skip(e),
+        }
+    };
+    let got = Arc::new(Mutex::new(Got::default()));
+    // the application keeps accepting
+    let mut app = Vec::new();
+    {
+        let c = conn.clone();
+        let g = got.clone();
+        app.push(tokio::spawn(async move {
+            loop {
+                match c.accept_uni().await {
+                    Ok(mut r) => {
+                        let g = g.clone();
+                        tokio::spawn(async move {
+                            let mut data = Vec::new();
+                            let mut b = [0u8; 256];
+                            while let Ok(Some(n)) = r.read(&mut b).await {
+                                data.extend_from_slice(&b[..n]);
+                            }
+                            g.lock().unwrap().uni.push(data);
+                        });
+                    }
+                    Err(e) => {
+                        g.lock().unwrap().errors.push(format!("accept_uni: {}", conn_err(&e)));
+                        break;
+                    }
+                }
+            }
+        }));
+        let c = conn.clone();
+        let g = got.clone();
+        app.push(tokio::spawn(async move {
+            loop {
+                match c.accept_bi().await {
+                    Ok((_s, mut r)) => {
+                        let g = g.clone();
+                        tokio::spawn(async move {
+                            let mut data = Vec::new();
+                            let mut b = [0u8; 256];
+                            while let Ok(Some(n)) = r.read(&mut b).await {
+                                data.extend_from_slice(&b[..n]);
+                            }
+                            g.lock().unwrap().bi.push(data);
+                        });
+                    }
+                    Err(e) => {
+                        g.lock().unwrap().errors.push(format!("accept_bi: {}", conn_err(&e)));
+                        break;
+                    }
+                }
+            }
+        }));
+        let c = conn.clone();
+        let g = got.clone();
+        app.push(tokio::spawn(async move {
+            loop {
+                match c.receive_datagram().await {
+                    Ok(d) => g.lock().unwrap().dgram.push(d.payload().to_vec()),
+                    Err(e) => {
+                        g.lock().unwrap().errors.push(format!("receive_datagram: {}", conn_err(&e)));
+                        break;
+                    }
+                }
+            }
+        }));
+    }
+    // the raw peer plays the script
+    let mut live_uni: Vec<Vec<u8>> = Vec::new();
+    let mut live_bi: Vec<Vec<u8>> = Vec::new();
+    let mut live_dg: Vec<Vec<u8>> = Vec::new();
+    let mut foreign_sends: BTreeMap<usize, quinn::SendStream> = BTreeMap::new();
+    let mut held: Vec<Box<dyn std::any::Any + Send>> = Vec::new();
+    let mut foreign_between = false;
+    let mut seen_live = false;
+    let mut pending_foreign = false;
+    for (i, it) in case.items.iter().enumerate() {
+        match it {
+            Item::LiveUni(t) | Item::LiveBi(t) | Item::LiveDatagram(t) => {
+                if seen_live && pending_foreign {
+                    foreign_between = true;
+                }
+                seen_live = true;
+                let data = format!("live-{i}-{t}").into_bytes();
+                match it {
+                    Item::LiveUni(_) => {
+                        if let Ok(mut s) = raw_open_wt_uni(&raw_conn, session).await {
+                            let _ = s.write_all(&data).await;
+                            let _ = s.finish();
+                            held.push(Box::new(s));
+                            live_uni.push(data);
+                        }
+                    }
+                    Item::LiveBi(_) => {
+                        if let Ok((mut s, r)) = raw_open_wt_bi(&raw_conn, session).await {
+                            let _ = s.write_all(&data).await;
+                            let _ = s.finish();
+                            held.push(Box::new((s, r)));
+                            live_bi.push(data);
+                        }
+                    }
+                    _ => {
+                        if raw_conn.send_datagram(refcodec::enc_datagram(session, &data).into()).is_ok() {
+                            live_dg.push(data);
+                        }
+                        tokio::time::sleep(Duration::from_millis(3)).await;
+                    }
+                }
+            }
+            Item::ForeignUni(id) | Item::ForeignBi(id) | Item::ForeignDatagram(id) => {
+                let id = if *id == session { id + 4 } else { *id };
+                pending_foreign = seen_live;
+                let data = format!("FOREIGN-{i}").into_bytes();
+                match it {
+                    Item::ForeignUni(_) => {
+                        if let Ok(mut s) = raw_conn.open_uni().await {
+                            let mut b = refcodec::enc_uni_header_wt(id);
+                            b.extend_from_slice(&data);
+                            let _ = s.write_all(&b).await;
+                            foreign_sends.insert(i, s);
+                        }
+                    }
+                    Item::ForeignBi(_) => {
+                        if let Ok((mut s, r)) = raw_conn.open_bi().await {
+                            let mut b = refcodec::enc_bi_header_wt(id);
+                            b.extend_from_slice(&data);
+                            let _ = s.write_all(&b).await;
+                            foreign_sends.insert(i, s);
+                            held.push(Box::new(r));
+                        }
+                    }
+                    _ => {
+                        let _ = raw_conn.send_datagram(refcodec::enc_datagram(id, &data).into());
+                    }
+                }
+            }
+        }
+    }
+    // a final live stream of each kind flushes the hand-off queues past every foreign stream
+    for bidi in [false, true] {
+        let data = format!("live-final-{bidi}").into_bytes();
+        if bidi {
+            if let Ok((mut s, r)) = raw_open_wt_bi(&raw_conn, session).await {
+                let _ = s.write_all(&data).await;
+                let _ = s.finish();
+                held.push(Box::new((s, r)));
+                live_bi.push(data);
+            }
+        } else if let Ok(mut s) = raw_open_wt_uni(&raw_conn, session).await {
+            let _ = s.write_all(&data).await;
+            let _ = s.finish();
+            held.push(Box::new(s));
+            live_uni.push(data);
+        }
+    }
+    // wait for all live streams
+    let deadline = tokio::time::Instant::now() + Duration::from_secs(6);
+    loop {
+        {
+            let g = got.lock().unwrap();
+            if let Some(e) = g.errors.first() {
+                return viol("C17:e2e:session-disturbed", format!("the live session ended while foreign traffic was present: {e}"));
+            }
+            if g.uni.len() >= live_uni.len() && g.bi.len() >= live_bi.len() {
+                break;
+            }
+        }
+        if tokio::time::Instant::now() >= deadline {
+            let g = got.lock().unwrap();
+            return CaseResult::Timeout(format!("live streams delivered: uni {}/{} bidi {}/{}", g.uni.len(), live_uni.len(), g.bi.len(), live_bi.len()));
+        }
+        tokio::time::sleep(Duration::from_millis(3)).await;
+    }
+    tokio::time::sleep(Duration::from_millis(40)).await;
+    {
+        let g = got.lock().unwrap();
+        let mut u = g.uni.clone();
+        let mut lu = live_uni.clone();
+        u.sort();
+        lu.sort();
+        if u != lu {
+            let bad: Vec<String> = g.uni.iter().filter(|d| !live_uni.contains(d)).map(|d| String::from_utf8_lossy(d).to_string()).collect();
+            return viol("C17:e2e:uni-delivered", format!("accept_uni returned streams that are not the session's: {:?} (live {} delivered {})", bad, live_uni.len(), g.uni.len()));
+        }
+        let mut b = g.bi.clone();
+        let mut lb = live_bi.clone();
+        b.sort();
+        lb.sort();
+        if b != lb {
+            let bad: Vec<String> = g.bi.iter().filter(|d| !live_bi.contains(d)).map(|d| String::from_utf8_lossy(d).to_string()).collect();
+            return viol("C17:e2e:bidi-delivered", format!("accept_bi returned streams that are not the session's: {:?}", bad));
+        }
+        for d in &g.dgram {
+            if !live_dg.contains(d) {
+                return viol("C17:e2e:datagram-delivered", format!("receive_datagram returned a datagram of another session: {:?}", String::from_utf8_lossy(d)));
+            }
+        }
+    }
+    // every foreign stream is refused with the buffered-stream-rejected code
+    for (i, s) in foreign_sends.iter_mut() {
+        match tokio::time::timeout(Duration::from_secs(4), s.stopped()).await {
+            Ok(Ok(Some(c))) if c.into_inner() == reg::WT_BUFFERED_STREAM_REJECTED => {}
+            Ok(other) => return viol("C17:e2e:refusal-code", format!("foreign stream (item #{i}) was answered with {:?}, expected STOP_SENDING 0x3994bd84", other.map(|c| c.map(|v| v.into_inner())))),
+            Err(_) => return CaseResult::Timeout(format!("foreign stream (item #{i}) was never refused")),
+        }
+    }
+    if raw_conn.close_reason().is_some() {
+        return viol("C17:e2e:session-disturbed", format!("connection closed: {:?}", raw_conn.close_reason().map(|e| close_seen(&e))));
+    }
+    for t in app {
+        t.abort();
+    }
+    drop(held);
+    let mut labels = vec![if case.wt_is_server { "role:server" } else { "role:client" }];
+    if !foreign_sends.is_empty() {
+        labels.push("foreign-stream-refused");
+    }
+    if case.items.iter().any(|i| matches!(i, Item::ForeignDatagram(_))) {
+        labels.push("foreign-datagram");
+    }
+    CaseResult::Pass { nontrivial: foreign_between, labels }
+}
+
+pub fn exec(case: &Case) -> CaseResult {
+    let c = Arc::new(case.clone());
+    match run_on(case.flavor, Duration::from_secs(30), exec_async(c)) {
+        Some(r) => r,
+        None => CaseResult::Timeout("case did not finish in 30 s".into()),
+    }
+}
+
+pub fn run(run: &Run) {
+    run.set_rule(RULE);
+    run.assume("foreign streams are refused when the application asks for streams of that kind (the filter runs inside accept_uni / accept_bi); the application keeps accepting");
+    prop_search(
+        run,
+        Search { check: "foreign-session", cases: run.tier.pick(250, 3000), workers: 8, max_shrink_iters: 60 },
+        case_strategy,
+        |c| judge(|| exec(c), true, "C17:e2e:live-not-delivered"),
+        |c| serde_json::to_value(c).unwrap(),
+    );
+    for l in ["role:server", "role:client", "foreign-stream-refused", "foreign-datagram"] {
+        run.essential(l);
+    }
+}
+
+pub fn replay(run: &Run, doc: &Value) -> bool {
+    if doc["check"].as_str() != Some("foreign-session") {
+        return false;
+    }
+    let Ok(case) = serde_json::from_value::<Case>(doc["case"].clone()) else {
+        return false;
+    };
+    run.eval("foreign-session", true, 1);
+    for _ in 0..3 {
+        if let Outcome::Fail { signature, message } = judge(|| exec(&case), true, "C17:e2e:live-not-delivered") {
+            run.fail("foreign-session", &signature, &message, doc["case"].clone());
+            break;
+        }
+    }
+    true
 }
